@@ -61,6 +61,8 @@ class OpLog:
     to_add: list[tuple[str, str, str]] = field(default_factory=list)  # wheel: (abs path, project-relative, target) in set-iteration order
     dist_info_listing: list[str] = field(default_factory=list)     # files under the prepared dist-info, in glob order
     dist_info_bytes: dict[str, bytes] = field(default_factory=dict)
+    dist_info_modes: dict[str, int] = field(default_factory=dict)
+    dist_info_source: str = ""
     records_after: list[tuple[str, str, int]] = field(default_factory=list)
     project_root: str = ""
     file_scripts: list[str] = field(default_factory=list)
@@ -117,6 +119,8 @@ def logged() -> Iterator[OpLog]:
         listing = [f for f in source.glob("**/*")]
         log.dist_info_listing = [f.relative_to(source).as_posix() for f in listing if f.is_file()]
         log.dist_info_bytes = {f.relative_to(source).as_posix(): f.read_bytes() for f in listing if f.is_file()}
+        log.dist_info_modes = {f.relative_to(source).as_posix(): os.stat(f).st_mode for f in listing if f.is_file()}
+        log.dist_info_source = str(source)
         return o_copy(self, wheel, source)
 
     def copy_file_scripts(self: Any, wheel: Any) -> None:
@@ -208,7 +212,7 @@ def _quiet() -> None:
 
 def builder_facts(b: Any) -> dict[str, Any]:
     out = {"package_name": str(b._package.name), "pretty_name": str(b._package.pretty_name), "meta_version": b._meta.version,
-           "meta_name": b._meta.name}
+           "meta_name": b._meta.name, "module_name": b._module.name}
     if hasattr(b, "wheel_filename"):
         out.update({"wheel_filename": b.wheel_filename, "dist_info": b.dist_info, "data_folder": b.wheel_data_folder,
                     "tag": b.tag, "supports_py2": b.supports_python2(),
